@@ -35,7 +35,7 @@ PROPS = {
         "shrink": False,
         "run_timeout": 2400,
         "trivial_outs": {"i1", "i0", ""},
-        "rule": "cases = crafted damaged files (truncated header, bad magic/version, seconds-resolution expiry, database index 16 and 2^32-1, unknown type, invalid length form, duplicate keys of equal and different types, empty collections, NaN duplicates, malformed stream IDs and field counts) loaded and dumped; datasets of all types written by the implementation and by the model, then EVERY prefix and single-byte corruptions at EVERY position (8 absolute values + 4 xor masks per position; all 255 in the thorough tier) loaded in-process under catch_unwind with the counting allocator: per variant the load status, an allocation-beyond-file-length flag and a hash of the loaded dataset are compared with the extracted model; a save whose temporary file cannot be opened (dump must stay byte-identical); one evaluation = one operation (a SWEEP operation = thousands of loads)",
+        "rule": "cases = crafted damaged files (truncated header, bad magic/version, seconds-resolution expiry, database index 16 and 2^32-1, unknown type, invalid length form, duplicate keys of equal and different types, empty collections, NaN duplicates, malformed stream IDs and field counts) loaded and dumped; datasets of all types written by the implementation and by the model, then EVERY prefix and single-byte corruptions at EVERY position (8 absolute values + 4 xor masks per position; in the thorough tier 12 + 16, and all 255 other byte values for 16 of the files) loaded in-process under catch_unwind with the counting allocator: per variant the load status, an allocation-beyond-file-length flag and a hash of the loaded dataset are compared with the extracted model; a save whose temporary file cannot be opened (dump must stay byte-identical); one evaluation = one operation (a SWEEP operation = thousands of loads)",
         "explanation": "theorems: a save failing at any write leaves the dump unchanged and a later save succeeds; at every instant the dump is a complete output of one save; the model loader never yields Panic without overflow checks (release profile) and does with them (refutation: stream field count >= 2^63); the allocation bound reserved <= k*|file| is refuted (read_string allocates the declared length first); tie: differential corruption sweep + property oracle (no panic, no allocation far beyond the file length)",
         "trusted_base": ["counting global allocator of the harness (largest single request during a load)"],
         "assumptions": ["fail-the-n-th-write injection needs patches/hook-rdb-failat.diff; until it is applied only the open-failure crash point is exercised on the implementation", "per-key value/TTL tearing under concurrent writers (part 2 of the property) is not covered"],
